@@ -54,6 +54,11 @@ def gen_case(rng: Rng, i: int, tier: str):
     case = {"session": sess, "target": target, "knobs": knobs, "rng": r.randrange(1 << 30),
             "read": {"kind": r.pick(["path", "stream"]), "block": gen.gen_knobs(r)["block"], "chunk": gen.gen_knobs(r)["chunk"]},
             "volume": vol, "path_extract": pathx}
+    if big:
+        # megabyte members through a one-byte chunk limit / 16-byte read block are millions of traced decoder calls: the
+        # case would only ever meet the wall-clock backstop.  Big members are read with big knobs; tiny knobs meet small members.
+        case["read"]["block"] = max(case["read"]["block"], 32768)
+        case["read"]["chunk"] = max(case["read"]["chunk"], 65536)
     return case
 
 
